@@ -26,7 +26,7 @@ GEN_UNITS = []
 COQ_TARGETS = ["Props/C05.vo", "Model/Harness.vo"]
 THEOREM_FILES = ["Props/C05.v"]
 COQ_IMPORTS = ("From Coq Require Import List Arith Bool ZArith.\n"
-               "From PV Require Import Model.C05Store Model.C05View Model.C05View2 Model.C05Frame.\nImport ListNotations.\n")
+               "From PV Require Import Model.C05Store Model.C05View Model.C05View2 Model.C05Frame Model.C05ViewZ.\nImport ListNotations.\n")
 RULE = ("one case per (public operation, parameter class, shape[, memory layout]): operations enumerated from dir() of tensor, sptensor, "
         "ktensor, ttensor, tenmat, sptenmat, sumtensor, pyttb_utils, the pyttb top level and (wave 4) the optimizer classes of pyttb.gcp.optimizers "
         "(unlisted name = failing case) plus an explicit list of cp_apr / gcp helper functions; "
@@ -1440,6 +1440,9 @@ _idempotent_table()
 #      rows split along the open findings -----------------------------------------------------------------------------
 from props import c05_w4 as W4          # noqa: E402
 W4.register(globals())
+# ---- wave 5 (tools/props/c05_w5.py): empty selections, code paths of the latest fix commits, module pyttb.cp_apr enumerated -----
+from props import c05_w5 as W5          # noqa: E402
+W5.register(globals())
 
 #TABLE-SECTIONS
 
@@ -1480,8 +1483,14 @@ def public_surface():
         for n in sorted(dir(getattr(GO, cn))):
             if not n.startswith("_") and callable(getattr(getattr(GO, cn), n)) and not isinstance(getattr(getattr(GO, cn), n), type):
                 out.append(("gcpopt", f"{cn}.{n}"))
-    # helper functions named by the property's anchors (an explicit list, not an enumeration: see CORRESPONDENCE_ONLY)
+    # wave 5: every function DEFINED in module pyttb.cp_apr except the entry point itself (listed under "ttb")
     import importlib
+    CAm = importlib.import_module("pyttb.cp_apr")
+    for n in sorted(dir(CAm)):
+        a = getattr(CAm, n)
+        if not n.startswith("_") and callable(a) and not isinstance(a, type) and getattr(a, "__module__", None) == CAm.__name__ and n != "cp_apr":
+            out.append(("cpapr", n))
+    # gcp helper functions named by the property's anchors (an explicit list, not an enumeration: see CORRESPONDENCE_ONLY)
     for (ns, name) in TABLE:
         if ns == "helpers":
             modn, fn = name.rsplit(".", 1)
@@ -1725,10 +1734,57 @@ def _pairs(o, rprefix=None, oprefix=None):
                and (oprefix is None or po.startswith(oprefix)) for pr, po in o["shared"])
 
 
+def _zarr(desc, path, bid):
+    shp, st = desc[path]
+    return f"(mkZArr {bid} 0%Z {_gl(shp)} [" + "; ".join(f"({int(x)})%Z" for x in st) + "])"
+
+
+def _neg(desc, paths):
+    return any(p_ in desc and any(x < 0 for x in desc[p_][1]) for p_ in paths)
+
+
+def model_verdicts_z(c, o):
+    """wave 5: the constructors on NEGATIVE-stride arguments, over the signed view model (Model/C05ViewZ.v)"""
+    d, pc = o["desc"], c.args["pclass"]
+    shape = list(c.args["shape"])
+    cpy = "false" if pc.startswith("copy=False") else "true"
+    if c.op == "tensor.__init__" and pc.startswith("copy=") and _neg(d, ["d"]):
+        D = _zarr(d, "d", 0)
+        t = shape if pc == "copy=True,shape" else d["d"][0]
+        return [(f"zaliases [{D}] [snd (z_tensor_init (hz0 1) {D} {_gl(t)} {cpy})]", _pairs(o, "result", "d"))]
+    if c.op == "tenmat.__init__" and pc.startswith("copy=") and _neg(d, ["d"]):
+        D = _zarr(d, "d", 0)
+        return [(f"zaliases [{D}] [snd (z_tenmat_init (hz0 1) {D} {cpy})]", _pairs(o, "result.data", "d"))]
+    if c.op == "sptensor.__init__" and pc.startswith("copy=") and _neg(d, ["s", "v"]) and "s" in d and "v" in d:
+        S, Vv = _zarr(d, "s", 0), _zarr(d, "v", 1)
+        return [(f"zaliases [{S}; {Vv}] (snd (z_sptensor_init (hz0 2) {S} {Vv} {cpy}))", _pairs(o, "result", None))]
+    if c.op == "ktensor.__init__" and pc in ("copy=True", "copy=False") and "w" in d:
+        fk = sorted(k for k in d if k.startswith("f["))
+        if fk and _neg(d, fk + ["w"]):
+            F = [_zarr(d, k, i + 1) for i, k in enumerate(fk)]
+            FL, W, H = "[" + "; ".join(F) + "]", _zarr(d, "w", 0), f"(hz0 {len(fk) + 1})"
+            if cpy == "true":
+                return [(f"zaliases ({W} :: {FL}) (snd (z_ktensor_init {H} {FL} {W} true))", _pairs(o, "result", None))]
+            return [(f"zaliases {FL} (tl (snd (z_ktensor_init {H} {FL} {W} false)))", _pairs(o, "result.factor_matrices", "f")),
+                    (f"zaliases [{W}] [hd {W} (snd (z_ktensor_init {H} {FL} {W} false))]", _pairs(o, "result.weights", "w"))]
+    if c.op == "ttb.khatrirao" and pc.startswith("single-matrix"):
+        key = "A" if "A" in d else "U[0]"
+        if _neg(d, [key]):
+            A = _zarr(d, key, 0)
+            return [(f"zaliases [{A}] [snd (z_khatrirao_single (hz0 1) {A})]", _pairs(o, "result", None))]
+    return []
+
+
 def model_verdicts(c, o):
     """[(Gallina bool expression over the view model, measured bool)] for the rows whose return path is transliterated"""
     if c.op not in MODELLED or "desc" not in o:
         return []
+    try:
+        mz = model_verdicts_z(c, o)
+    except (KeyError, TypeError):
+        mz = []
+    if mz:
+        return mz
     d, iv, pc = o["desc"], o.get("ivals", {}), c.args["pclass"]
     shape = list(c.args["shape"])
     N, n = len(shape), math.prod(shape)
